@@ -362,3 +362,7 @@ SPECS["C06"]["level_text"] = ("proved with z3's string/regex theory over ALL ASC
 SPECS["C06"]["level_note"] = "trusted: pyvc engine, z3 sequence/regex theory, regex translation (re._parser), assumed semantics of Pattern.sub for `[class]+`, str.strip, match decomposition and lazy-group minimality (suffix-closure checked by z3); make_safe_name assumed pure; uniqueness is bounded only"
 SPECS["C06"]["not_covered"] = ["uniqueness of assigned names as a contract", "Roland names", "os.path.join / makedirs"]
 SPECS["C10"]["contracts"] = _NAMING[:2]
+
+SPECS["C05"]["clause_prefixes"] = ["C05.", "export-raised", "exactly-the-referenced-samples", "pcm-byte-identical", "rate-and-channels", "well-formed-wav"]
+SPECS["C06"]["clause_prefixes"] = ["C06.", "export-raised"]
+SPECS["C10"]["clause_prefixes"] = ["C10.", "export-raised"]
